@@ -234,6 +234,7 @@ pub fn workload(rng: &mut Rng, tier: Tier) -> Workload {
         likely_true: *rng.pick(&[4, 4, 3, 3, 2]),
         unsupported: 0,
         placeholder_strings: false,
+        risky_specials: rng.chance(1, 200),
     };
     let expr = gen::expression(rng, &cfg);
     let n_files = rng.range(1, 8) as usize;
@@ -345,6 +346,9 @@ pub fn prepare(w: &Workload) -> Prep {
 pub fn prepare_program(w: &Workload, program: String, io_keys: Option<Vec<u32>>) -> Prep {
     let forms = match read_all(&program) {
         Ok(f) => f,
+        // a format escape the code generator passed through verbatim: the program cannot be
+        // loaded at all, which is not this property's subject; set aside and counted
+        Err(e) if e.contains("unknown string escape") => return Prep::Discard(format!("unreadable program: {e}")),
         Err(e) => return Prep::Harness(format!("emitted program of a benign workload is unreadable: {e}\n{program}")),
     };
     let rt = Arc::new(Runtime::new(false, w.files.clone(), knobs_for(w, true)));
